@@ -5,13 +5,18 @@ import sys, difflib, subprocess, os
 name = sys.argv[1]
 trip = sys.argv[2:]
 out = []
+files = {}
+orig = {}
 for i in range(0, len(trip), 3):
     f, old, new = trip[i], trip[i + 1], trip[i + 2]
-    src = subprocess.check_output(["git", "-C", "/repo", "show", "HEAD:" + f], text=True)
+    if f not in files:
+        orig[f] = files[f] = subprocess.check_output(["git", "-C", "/repo", "show", "HEAD:" + f], text=True)
+    src = files[f]
     if src.count(old) != 1:
         sys.exit("OLD occurs %d times in %s" % (src.count(old), f))
-    dst = src.replace(old, new)
-    out += list(difflib.unified_diff(src.splitlines(True), dst.splitlines(True), "a/" + f, "b/" + f))
+    files[f] = src.replace(old, new)
+for f in files:
+    out += list(difflib.unified_diff(orig[f].splitlines(True), files[f].splitlines(True), "a/" + f, "b/" + f))
 d = "/verif/mutants"
 if os.environ.get("MUT_DIR"):
     d = os.environ["MUT_DIR"]
